@@ -44,6 +44,10 @@ def scen_spec(name):
             a["velocity"] = a["velocity"] + k
     # keep the lanelet goal consistent with the shifted lanelet
     sp["pps"][0]["goal"]["states"][1]["attrs"]["position"] = speclib.lanelet_goal_shape(sp, [2])
+    if name == "s1":
+        # the goal lanelets of s1 are listed in non-ascending order (a writer that tidies its input in place changes what the next writer sees)
+        sp["pps"][0]["goal"]["lanelets"] = {1: [2, 1]}
+        sp["pps"][0]["goal"]["states"][1]["attrs"]["position"] = speclib.lanelet_goal_shape(sp, [2, 1])
     # a signal series on the obstacle with the set-based prediction
     speclib.find(sp, "obstacles", 32)["signal_series"] = [{"time_step": 1, "horn": False, "indicator_left": True, "indicator_right": False, "braking_lights": True,
                                                            "hazard_warning_lights": False, "flashing_blue_lights": False}]
@@ -130,6 +134,7 @@ def make_enabled(tier, max_writers):
                         ops.append(["new", f, p, s])
         for i, w in enumerate(model["writers"]):
             ops.append(["write", i]); ops.append(["write_scenario", i])
+            ops.append(["write_fails", i])      # a write into a directory that does not exist: it raises, and must leave nothing behind in the writer
             if any(ff == w[0] for ff in model.get("file_fmts", [])):
                 ops.append(["write_skip", i]); ops.append(["write_always", i])
             # SKIP onto an existing but EMPTY file (a reserved name): it exists, so it must be left untouched, by both entry points
@@ -163,7 +168,14 @@ def step(world, model, op):
             i = op[1]
             fmt, prec, scen = m["writers"][i][:3]
             w = world.writers[i]
-            if k in ("write", "write_scenario"):
+            if k == "write_fails":
+                try:
+                    w.write_to_file(os.path.join(world.dir, "no-such-directory", "x." + fmt), OverwriteExistingFile.ALWAYS)
+                    obs["failed"] = False
+                except Exception:
+                    obs["failed"] = True
+                obs.update(path=os.path.join(world.dir, "no-such-directory"), fmt=fmt, prec=prec, scen=scen, method="write_to_file")
+            elif k in ("write", "write_scenario"):
                 fn = os.path.join(world.dir, f"f{m['nfiles']}.{fmt}")
                 method = "write_to_file" if k == "write" else "write_scenario_to_file"
                 getattr(w, method)(fn, OverwriteExistingFile.ALWAYS)
@@ -241,6 +253,10 @@ def check(world, model, model2, op, obs, pre):
             out.append((f"C15|new-writer|touches-files", f"{op}: {o['dir_changed']}"))
         return out
     fmt = o["fmt"]
+    if op[0] == "write_fails":
+        if o.get("dir_changed"):
+            out.append((f"C15|write_to_file|{fmt}|failed-write-touched-files", f"{op}: {o['dir_changed']}"))
+        return out
     # a writer touches the path it was given and nothing else; with SKIP on an existing file it touches nothing
     allowed = set() if op[0] in ("write_skip", "write_skip_empty", "write_skip_nosuffix") else {os.path.basename(o["path"])}
     other = [n for n in o.get("dir_changed", []) if n not in allowed]
